@@ -153,6 +153,7 @@ type Machine struct {
 	crand       int
 	cdirs       map[*LObj]*cDir
 	hangLimit   int
+	faultOpen   int
 	maxSteps    int
 	quietFS     bool
 	mainProc    int
